@@ -1329,6 +1329,10 @@ impl<'a, 'b, W: Write> Serializer for &'a mut YamlSerializer<'b, W> {
         self.write_scalar_prefix_if_anchor()?;
         // No indent needed mid-line; mirror serialize_str behavior.
         self.out.write_str("!!binary ")?;
+        if v.is_empty() {
+            // Written out, so that the node is not taken for an absent (null) value.
+            self.out.write_str("\"\"")?;
+        }
         let mut s = String::new();
         B64.encode_string(v, &mut s);
         self.out.write_str(&s)?;
